@@ -1,7 +1,7 @@
 (* C15 — property theorems (statements only; proofs live in Proofs.v). *)
-From Coq Require Import ZArith NArith QArith Bool List.
+From Coq Require Import ZArith NArith QArith Qabs Bool List.
 Require Import QV.C15.Model QV.C15.Spec QV.C15.ModelQ QV.C15.Proofs QV.C15.Proofs_upd QV.C15.Proofs_prep QV.C15.Proofs_q
-  QV.C15.Proofs_parse QV.C15.Proofs_e2e QV.C15.ModelMC QV.C15.Proofs_mc QV.C15.ModelF QV.C15.Proofs_f QV.C15.Proofs_split.
+  QV.C15.Proofs_parse QV.C15.Proofs_e2e QV.C15.ModelMC QV.C15.Proofs_mc QV.C15.ModelF QV.C15.Proofs_f QV.C15.Proofs_split QV.C15.Proofs_fr.
 Import ListNotations.
 Open Scope Z_scope.
 
@@ -439,6 +439,24 @@ Theorem C15_float_exact_restriction : forall fl q, is_intQ q = true -> count_fre
 Proof. exact count_fresh_tol_exact. Qed.
 Print Assumptions C15_float_exact_restriction.
 
+(* products: X * Y = K exactly (0.57 * 100 = 57), both parameters the nearest doubles; and a literal factor c * X = K
+   (100 * x): same conclusion as for the quotient (C15_float_quotient_count below; proofs in Proofs_fr.v) *)
+Theorem C15_float_product_count : forall (X Y : Q) (K : Z) (nx ny : name) env,
+  (0 <= X)%Q -> (0 <= Y)%Q -> 0 <= K < 2 ^ 20 -> (inject_Z K == X * Y)%Q ->
+  env nx = Some (rnd true X) -> env ny = Some (rnd true Y) ->
+  exists q, evalF true env (FMul (FVar nx) (FVar ny)) = Some q /\
+            count_update q = K /\ count_fresh_tol true q = Some K /\ update_warns true q = false.
+Proof. exact float_product_count. Qed.
+Print Assumptions C15_float_product_count.
+
+Theorem C15_float_scaled_count : forall (c X : Q) (K : Z) (nx : name) env,
+  (0 <= c)%Q -> (0 <= X)%Q -> 0 <= K < 2 ^ 20 -> (inject_Z K == c * X)%Q ->
+  env nx = Some (rnd true X) ->
+  exists q, evalF true env (FMul (FConst c) (FVar nx)) = Some q /\
+            count_update q = K /\ count_fresh_tol true q = Some K /\ update_warns true q = false.
+Proof. exact float_scaled_count. Qed.
+Print Assumptions C15_float_scaled_count.
+
 (* ---- Loop.split_one_child / _check_partial_unroll (round 4, seed C15-6) ---- *)
 (* the child split_one_child picks has count > 1, and it has a VOLATILE count only if every child that could be split at
    all is volatile: a fixed repeated entry is always preferred *)
@@ -479,3 +497,39 @@ Theorem C15_partial_unroll_refuted : exists st',
   forallb (fun c => negb (is_vol (rep_of c))) (kids st') = true /\ fixed_cap (kids ex_split_table_vol_only) = 0.
 Proof. exact split_example_freezes. Qed.
 Print Assumptions C15_partial_unroll_refuted.
+
+(* ---- error analysis of float counts (Proofs_fr.v; round 4) ---- *)
+(* the update path returns the integer the value is meant to be whenever the accumulated float error is below 1/2, and
+   never moves a count by more than 1/2 from the value of its expression *)
+Theorem C15_float_count_is_nearest : forall q k, (Qabs (q - inject_Z k) < 1 # 2)%Q -> count_update q = Z.max 0 k.
+Proof. exact count_update_nearest. Qed.
+Print Assumptions C15_float_count_is_nearest.
+
+Theorem C15_float_round_error : forall q, (Qabs (inject_Z (round_half_even q) - q) <= 1 # 2)%Q.
+Proof. exact round_half_even_error. Qed.
+Print Assumptions C15_float_round_error.
+
+(* general form of C15_float_truncate_refuted: for EVERY value is_integer accepts that lies below its integer k >= 1,
+   rounding yields k (= fresh instantiation) and truncation k - 1 *)
+Theorem C15_float_truncation_off_by_one : forall fl q k,
+  (0 <= q)%Q -> 1 <= k -> is_integer_f fl q = true -> (inject_Z k - (1 # 2) < q)%Q -> (q < inject_Z k)%Q ->
+  count_update q = k /\ count_fresh_tol fl q = Some k /\ count_update_trunc fl q = k - 1.
+Proof. exact truncation_off_by_one. Qed.
+Print Assumptions C15_float_truncation_off_by_one.
+
+(* one binary64 rounding has relative error at most 2^-53 (round53 is defined through ilog2Q; 2^ilog2Q q <= |q|) *)
+Theorem C15_float_round53_error : forall q, (Qabs (round53 q - q) <= Qabs q * (1 # 2 ^ 53))%Q.
+Proof. exact round53_error. Qed.
+Print Assumptions C15_float_round53_error.
+
+(* the class of seed C15-5 in general: X = K * Y exactly (decimal intent, 0.3 = 3 * 0.1), the parameter values are the
+   doubles nearest to X and Y, the count expression x / y is evaluated in binary64: for every 0 <= K < 2^20 and every
+   Y > 0 the update path and a fresh instantiation both read the result as K, without a "no integer" warning -
+   on whichever side of K the float result lands *)
+Theorem C15_float_quotient_count : forall (X Y : Q) (K : Z) (nx ny : name) env,
+  (0 < Y)%Q -> 0 <= K < 2 ^ 20 -> (X == inject_Z K * Y)%Q ->
+  env nx = Some (rnd true X) -> env ny = Some (rnd true Y) ->
+  exists q, evalF true env (FDiv (FVar nx) (FVar ny)) = Some q /\
+            count_update q = K /\ count_fresh_tol true q = Some K /\ update_warns true q = false.
+Proof. exact float_quotient_count. Qed.
+Print Assumptions C15_float_quotient_count.
